@@ -307,37 +307,77 @@ def _avr_crasher(blob):
 KNOWN_CRASHERS = {"msp430": _msp430_crasher, "avr": _avr_crasher}
 
 
-def _decode_positional(target, data):
+_LOST_FORMS = set()  # m68k instruction forms after which llvm-mc 14 printed nothing more (this process)
+
+
+def _m68k_form(blob):
+    """Operation, size and addressing mode of the first word with the register numbers masked
+    (PRM section 8: line, opmode bits 8..6 -- bits 11..6 for line 4 without bit 8 -- and the
+    effective-address mode; the ea register only for mode 7, where it selects the mode)."""
+    if len(blob) < 2:
+        return None
+    w = (blob[0] << 8) | blob[1]
+    mode, reg = (w >> 3) & 7, w & 7
+    ea = (mode << 3) | (reg if mode == 7 else 0)
+    if w >> 12 == 4 and not w & 0x100:
+        return (w & 0xFFC0) | ea
+    if w >> 12 == 6:
+        return (w & 0xFF00) | (1 if w & 0xFF in (0, 0xFF) else 0)
+    if w >> 12 in (1, 2, 3) and (w >> 6) & 7 == 7:
+        return (w & 0xFFC0) | ea  # MOVE to a mode-7 destination: its register field selects the mode
+    return (w & 0xF1C0) | ea
+
+
+def _skip_llvm(target, blob):
     pred = KNOWN_CRASHERS.get(target)
-    if pred is not None and any(pred(b) for b in data):
-        keep = [i for i, b in enumerate(data) if not pred(b)]
-        CRASHES[target + "/known crasher skipped"] = CRASHES.get(target + "/known crasher skipped", 0) + len(data) - len(keep)
-        res = [None] * len(data)
-        if keep:
-            for i, r in zip(keep, _decode_positional(target, [data[i] for i in keep])):
-                res[i] = r
-        return res
-    done = []
-    while True:  # a loop, not recursion: a thorough m68k chunk has hundreds of stream-losing inputs
+    if pred is not None and pred(blob):
+        return "known crasher skipped"
+    if target == "m68k" and _m68k_form(blob) in _LOST_FORMS:
+        return "form that lost the stream before, skipped"
+    return None
+
+
+def _decode_positional(target, data):
+    """_run_positional with the repairs: inputs known to kill llvm-mc are not sent; when llvm-mc
+    loses the rest of the stream after an invalid input (m68k) that input is undecodable, its form
+    (operation + addressing mode) is remembered and not sent again -- in the classes llvm-mc 14 has
+    no table for, every input would otherwise cost a run of its own -- and the inputs after it are
+    decoded again; on a crash or an inconsistent walk the chunk is halved."""
+    res = [None] * len(data)
+    idx = list(range(len(data)))
+    while idx:
+        keep = []
+        for i in idx:
+            why = _skip_llvm(target, data[i])
+            if why:
+                CRASHES["%s/%s" % (target, why)] = CRASHES.get("%s/%s" % (target, why), 0) + 1
+            else:
+                keep.append(i)
+        idx = keep
+        if not idx:
+            break
         try:
-            return done + _run_positional(target, data)
+            for i, r in zip(idx, _run_positional(target, [data[i] for i in idx])):
+                res[i] = r
+            break
         except _Lost as e:
             CRASHES[target + "/stream lost after an invalid input"] = CRASHES.get(target + "/stream lost after an invalid input", 0) + 1
-            done += e.partial + [None]
-            data = data[e.index + 1 :]
-            if not data:
-                return done
+            for i, r in zip(idx[: e.index], e.partial):
+                res[i] = r
+            if target == "m68k":
+                _LOST_FORMS.add(_m68k_form(data[idx[e.index]]))
+            idx = idx[e.index + 1 :]
         except (_Crashed, _Inconsistent) as e:
-            return done + _bisect_positional(target, data, e)
-
-
-def _bisect_positional(target, data, e):
-    if len(data) == 1:
-        key = target if isinstance(e, _Crashed) else target + "/inconsistent"
-        CRASHES[key] = CRASHES.get(key, 0) + 1
-        return [None]
-    h = len(data) // 2
-    return _decode_positional(target, data[:h]) + _decode_positional(target, data[h:])
+            if len(idx) == 1:
+                key = target if isinstance(e, _Crashed) else target + "/inconsistent"
+                CRASHES[key] = CRASHES.get(key, 0) + 1
+                break
+            h = len(idx) // 2
+            for part in (idx[:h], idx[h:]):
+                for i, r in zip(part, _decode_positional(target, [data[i] for i in part])):
+                    res[i] = r
+            break
+    return res
 
 
 def decode(target, blobs, batch=4000):
